@@ -269,7 +269,8 @@ def run(spec, ctx):
                 check_ud(ctx, rng, ud, via_pel=True, u=u)
         else:
             for i in range(600):
-                check_src(ctx, rng, u)
+                # in every second repetition the very first SRC of the process is a look-alike, not a hardware-diagnostics one
+                check_src(ctx, rng, u, neighbour_first=(i == 0 and _rep % 2 == 0 and spec["shard"] % 2 == 1))
 
 
 def gen_ud(rng):
@@ -380,7 +381,18 @@ def check_ud(ctx, rng, ud, via_pel, u):
         compare_ud(ctx, got, want, kind, payload, "pel")
 
 
-def check_src(ctx, rng, u):
+def check_src(ctx, rng, u, neighbour_first=False):
+    if neighbour_first or rng.random() < 0.15:
+        # a neighbour in the same process: a BMC-created PEL whose SRC is NOT a hardware-diagnostics one but reads alike - a
+        # hostboot code (BC..) or another type with E5 in the component position, an E5 component under another creator.
+        # Whatever it is shown as, it must not change what the hardware-diagnostics SRCs after it are shown as.
+        cr = "O" if neighbour_first else rng.choice("OOOBM")
+        t = "BC" if neighbour_first else rng.choice(["BC", "BC", "11", "B7"])
+        ref = (t + "%02X" % rng.randrange(256) if t != "11" else "1100") + rng.choice(["E5", "e5"]) + "%02X" % rng.randrange(256)
+        s = pm.gen_src(rng, u, True, cr, srctype=t, refcode=ref.upper() if rng.random() < 0.8 else ref, ncallouts=0)
+        o = harness.decode(pm.Pel(cr, pm.gen_ph(rng, u, cr), pm.gen_uh(rng, cr), [s, pm.gen_mt(rng, u, cr)]).encode())
+        ctx.counters["src.lookalike_neighbours"] += 1
+        ctx.see("src.lookalike_outcome", o.kind)
     a, b, c = rand_sig(rng)
     reason = rng.choice(["10", "10", "11", "00", "FF", "1F"])
     # BMC reference code: "BD" + subsystem + reason code; the component is the reason code's first byte (E5 = hw diags)
